@@ -614,18 +614,50 @@ var ErrWrappers = []Spec{
 // directly, or through the wrapping functions (any argument, incl. varargs elements).
 func ErrDerives(v ssa.Value, src ValPred) bool {
 	seen := map[ssa.Value]bool{}
+	// bind: parameters of the helpers being looked into -> the arguments of the call that is being expanded
+	bind := map[ssa.Value]ssa.Value{}
 	var rec func(v ssa.Value) bool
 	rec = func(v ssa.Value) bool {
 		if seen[v] {
 			return false
 		}
 		seen[v] = true
+		if a, ok := bind[v]; ok {
+			return rec(a)
+		}
 		for _, r := range Roots(v, false) {
 			if src(r) {
 				return true
 			}
+			if a, ok := bind[r]; ok {
+				if rec(a) {
+					return true
+				}
+				continue
+			}
 			call, _ := CallOfValue(r)
-			if call == nil || !MatchCC(&call.Call, ErrWrappers...) {
+			if call == nil {
+				continue
+			}
+			// a helper of the package that annotates the error it is given (subroutineFailed(err, "provider")): what it returns
+			if sc := call.Call.StaticCallee(); sc != nil && len(sc.Blocks) > 0 && !MatchCC(&call.Call, ErrWrappers...) && call.Parent() != nil && PkgOf(sc) == PkgOf(call.Parent()) {
+				for i, p := range sc.Params {
+					if i < len(call.Call.Args) {
+						bind[p] = call.Call.Args[i]
+					}
+				}
+				for _, b := range sc.Blocks {
+					if ret, ok := b.Instrs[len(b.Instrs)-1].(*ssa.Return); ok {
+						for _, res := range ret.Results {
+							if types.Identical(res.Type(), types.Universe.Lookup("error").Type()) && rec(res) {
+								return true
+							}
+						}
+					}
+				}
+				continue
+			}
+			if !MatchCC(&call.Call, ErrWrappers...) {
 				continue
 			}
 			for _, a := range call.Call.Args {
